@@ -1,0 +1,42 @@
+//go:build verif
+
+package dcp
+
+import (
+	"os"
+
+	"github.com/asaskevich/EventBus"
+	"github.com/prometheus/client_golang/prometheus"
+
+	"github.com/Trendyol/go-dcp/config"
+	"github.com/Trendyol/go-dcp/couchbase"
+	"github.com/Trendyol/go-dcp/models"
+	"github.com/Trendyol/go-dcp/stream"
+)
+
+// VerifNewDcp builds the dcp object of newDcp around a client supplied by the verification
+// harness (newDcp itself needs a Couchbase cluster to connect to). Only built with the verif tag.
+func VerifNewDcp(cfg *config.Dcp, client couchbase.Client, consumer models.Consumer,
+	version *couchbase.Version, bucketInfo *couchbase.BucketInfo,
+) Dcp {
+	return &dcp{
+		client:           client,
+		consumer:         consumer,
+		config:           cfg,
+		version:          version,
+		bucketInfo:       bucketInfo,
+		apiShutdown:      make(chan struct{}, 1),
+		cancelCh:         make(chan os.Signal, 1),
+		stopCh:           make(chan struct{}, 1),
+		readyCh:          make(chan struct{}, 1),
+		metricCollectors: []prometheus.Collector{},
+		eventHandler:     models.DefaultEventHandler,
+		bus:              EventBus.New(),
+	}
+}
+
+// VerifParts exposes what the harness projects the implementation state from.
+func VerifParts(d Dcp) (stream.Stream, stream.VBucketDiscovery, EventBus.Bus, chan struct{}) {
+	x := d.(*dcp)
+	return x.stream, x.vBucketDiscovery, x.bus, x.stopCh
+}
